@@ -150,6 +150,7 @@ class Facts:
         self.bodies = {}        # path -> body
         self.by_hash = {}       # def-path hash -> body
         self.const_bodies = {}  # generic associated constants: path -> MIR body
+        self.extern_by_hash = {}  # small core combinators (Option::map, checked_sub, mem::swap ...): def-path hash -> body
         self.types = {}
         self.impls = []
         self.traits = {}
@@ -167,6 +168,9 @@ class Facts:
                 b['crate'] = name
                 self.bodies[b['path']] = b
                 self.by_hash[b['hash']] = b
+            for b in d.get('extern_bodies', []):
+                b['crate'] = '<extern>'
+                self.extern_by_hash.setdefault(b['hash'], b)
             for b in d.get('const_bodies', []):
                 b['crate'] = name
                 self.const_bodies[b['path']] = b
